@@ -59,9 +59,33 @@ def user_attrs(node):
   return sorted(k for k in vars(node) if k != '_object__state')
 
 
-def run_program(prog, args, x):
-  """Executes the statements; returns the accumulated scalar."""
+def build_return(ret, nodes0, vars0):
+  """Graph-valued part of the result: objects that were reachable from the
+  arguments *before* the program ran (they may have been detached by it),
+  returned bare or inside a newly created holder."""
+  items = []
+  for kind, pick in ret or ():
+    if kind == 'node' and nodes0:
+      items.append(nodes0[pick % len(nodes0)])
+    elif kind == 'var' and vars0:
+      items.append(vars0[pick % len(vars0)])
+    elif kind == 'holder' and nodes0:
+      h = G.NODE_CLS['GA']()
+      h.inner = nodes0[pick % len(nodes0)]
+      h.tag = 'ret'
+      items.append(h)
+    elif kind == 'holder_var' and vars0:
+      h = G.NODE_CLS['GB']()
+      h.v = vars0[pick % len(vars0)]
+      items.append(h)
+  return tuple(items)
+
+
+def run_program(prog, args, x, ret=None):
+  """Executes the statements; returns the accumulated scalar (and, with
+  `ret`, a tuple of graph objects built by build_return)."""
   acc = jnp.zeros((), jnp.float32) + x * 0
+  nodes0, vars0 = reachable(args)
   for stmt in prog:
     op = stmt[0]
     nodes, vars_ = reachable(args)
@@ -104,6 +128,8 @@ def run_program(prog, args, x):
         setattr(n, b, va)
     else:
       raise AssertionError(op)
+  if ret is not None:
+    return acc, build_return(ret, nodes0, vars0)
   return acc
 
 
@@ -134,6 +160,12 @@ def stmt_strategy(structural=True):
         st.tuples(st.just('swap'), pick, pick, pick),
     ]
   return st.one_of(*base).map(list)
+
+
+def return_strategy():
+  return st.lists(st.tuples(st.sampled_from(['node', 'var', 'holder',
+                                             'holder', 'holder_var']),
+                            st.integers(0, 20)).map(list), max_size=2)
 
 
 def program_strategy(structural=True, min_size=1, max_size=6):
